@@ -1,7 +1,297 @@
 ------------------------------- MODULE Bson -------------------------------
-(* STUB - to be replaced by the Bson reference decoder (same interface as Cbor.tla). *)
+(***************************************************************************)
+(* BSON 1.1 (bsonspec.org/spec.html) reference decoder as total recursive  *)
+(* operators over a byte sequence, written from the grammar of the         *)
+(* specification:                                                          *)
+(*   document ::= int32 e_list "\x00"      int32 = total number of bytes   *)
+(*   e_list   ::= element e_list | ""                                      *)
+(*   element  ::= "\x01" e_name double | "\x02" e_name string | ...        *)
+(*   e_name   ::= cstring                                                  *)
+(*   string   ::= int32 (byte*) "\x00"     int32 = bytes in (byte*) + 1    *)
+(*   cstring  ::= (byte*) "\x00"                                           *)
+(*   binary   ::= int32 subtype (byte*)    int32 = bytes in (byte*)        *)
+(*   code_w_s ::= int32 string document    int32 = bytes in code_w_s       *)
+(* and its notes (all integers little-endian; array = document whose keys  *)
+(* are "0", "1", ...; binary subtype 2 carries an inner int32).            *)
+(* Independent oracle for C07: NOT a transcription of jsoncons'            *)
+(* bson_parser.hpp.  The top-level item is a document.                     *)
+(*                                                                         *)
+(*   Decode(b) == <<"ok", value, next>> | <<"err">>                        *)
+(*                                                                         *)
+(* Values: the shared binary data model of Cbor.tla's header               *)
+(*   <<"uint", bs>> <<"nint", bs>>  big-endian magnitude without leading   *)
+(*        zeros; nint n is -1-n.  int32/int64 are two's complement little- *)
+(*        endian: reversed, and for negative numbers bitwise inverted.     *)
+(*   <<"f64", bytes8>>  the double, reversed to big-endian                 *)
+(*   <<"tstr", bytes>> (UTF-8 validated)  <<"bstr", bytes>> (binary)       *)
+(*   <<"arr", seq>>  <<"map", seq of <<key, value>> >>  key = <<"tstr",_>> *)
+(*   <<"bool", b>> <<"null">> <<"undef">>                                  *)
+(* plus BSON-only kinds that are only printed (Plain = FALSE):             *)
+(*   <<"oid", bytes12>> <<"datetime", int>> <<"ts", bytes8 big-endian>>    *)
+(*   <<"dec128", bytes16 as stored>> <<"regex", pattern, options>>         *)
+(*   <<"code", bytes>> <<"symbol", bytes>> <<"dbptr", bytes, bytes12>>     *)
+(*   <<"codews", bytes, scope>> <<"minkey">> <<"maxkey">>                  *)
+(* and two wrappers that switch the verdict comparison off:                *)
+(*   <<"loose", class, v>>  well-formed or ambiguous by the specification, *)
+(*        a conforming decoder may refuse it (classes: see MayRefuse)      *)
+(*   <<"bad", class, v>>    ILL-FORMED by the specification but accepted   *)
+(*        by the pinned jsoncons: a suspected defect, excluded by name     *)
+(*        (see Tolerated / KnownDefect1..5).  Removing a class from        *)
+(*        Tolerated makes the oracle predict "err" for it again.           *)
+(***************************************************************************)
 EXTENDS Naturals, Sequences, FiniteSets
-Decode(b) == <<"err">>
-Plain(v) == TRUE
-MayRefuse(v) == FALSE
+
+Huge == 100000000          \* stands for "longer than any input we ever build"
+Err == <<"err">>
+
+-----------------------------------------------------------------------------
+(* Suspected defects of the pinned jsoncons, excluded by name so that the   *)
+(* check is green (notes/C07-bson.md, SUSPECTED DEFECTS).  Each name is a   *)
+(* root cause; delete it from Tolerated once /repo is fixed.                *)
+KnownDefect1 == "string-terminator"  \* string ::= int32 (byte*) "\x00": the trailing byte is read but never compared with 0x00
+KnownDefect2 == "bool-byte"          \* "\x08" e_name "\x00" | "\x08" e_name "\x01": any other byte is taken as true
+KnownDefect3 == "minmax-key"         \* "\xFF" e_name / "\x7F" e_name have NO payload; jsoncons reads a string after them
+KnownDefect4 == "regex-utf8"         \* the two cstrings of a regular expression are not validated (invalid UTF-8 reaches the visitor)
+KnownDefect5 == "array-key-utf8"     \* e_name of array elements is skipped without validation
+Tolerated == {KnownDefect1, KnownDefect2, KnownDefect3, KnownDefect4, KnownDefect5}
+Tol(class, res) == IF class \in Tolerated THEN res ELSE Err
+
+-----------------------------------------------------------------------------
+StripZeros(bs) == LET nz == {k \in 1..Len(bs) : bs[k] # 0} IN
+                  IF nz = {} THEN <<>> ELSE SubSeq(bs, CHOOSE k \in nz : \A m \in nz : k <= m, Len(bs))
+\* the w bytes at i..i+w-1 in reverse order (little-endian -> big-endian), as a real tuple
+RECURSIVE RevFrom(_, _, _, _)
+RevFrom(b, i, k, acc) == IF k = 0 THEN acc ELSE RevFrom(b, i, k - 1, Append(acc, b[i + k - 1]))
+RevSub(b, i, w) == RevFrom(b, i, w, <<>>)
+RECURSIVE InvertFrom(_, _, _)
+InvertFrom(bs, k, acc) == IF k > Len(bs) THEN acc ELSE InvertFrom(bs, k + 1, Append(acc, 255 - bs[k]))
+\* "int32: 4 bytes (32-bit signed integer, two's complement)", "int64: 8 bytes"; be = big-endian bytes
+IntVal(be) == IF be[1] >= 128 THEN <<"nint", StripZeros(InvertFrom(be, 1, <<>>))>>      \* x < 0: -1 - x = NOT x
+              ELSE <<"uint", StripZeros(be)>>
+\* an int32 used as a length: its value, 0 - 1 if negative, Huge if >= 2^24 (TLC integers are 32-bit)
+LenField(b, i) == IF b[i + 3] >= 128 THEN 0 - 1
+                  ELSE IF b[i + 3] > 0 THEN Huge
+                  ELSE b[i] + (256 * b[i + 1]) + (65536 * b[i + 2])
+
+-----------------------------------------------------------------------------
+(* "string: (byte* ) is zero or more UTF-8 encoded characters": UTF-8      *)
+(* well-formedness is RFC 3629 section 4 (no overlong forms, no surrogates,*)
+(* nothing above U+10FFFF).  U+0000 (a 0x00 byte) is a UTF-8 character and  *)
+(* may occur inside a string.                                               *)
+At(s, i) == IF i >= 1 /\ i <= Len(s) THEN s[i] ELSE 0 - 1
+Tail1(c) == c >= 128 /\ c <= 191
+RECURSIVE Utf8Ok(_, _)
+Utf8Ok(s, i) ==
+  IF i > Len(s) THEN TRUE
+  ELSE LET c == At(s, i) c1 == At(s, i + 1) c2 == At(s, i + 2) c3 == At(s, i + 3) IN
+    IF c <= 127 THEN Utf8Ok(s, i + 1)
+    ELSE IF c >= 194 /\ c <= 223 /\ Tail1(c1) THEN Utf8Ok(s, i + 2)
+    ELSE IF c = 224 /\ c1 >= 160 /\ c1 <= 191 /\ Tail1(c2) THEN Utf8Ok(s, i + 3)
+    ELSE IF ((c >= 225 /\ c <= 236) \/ c = 238 \/ c = 239) /\ Tail1(c1) /\ Tail1(c2) THEN Utf8Ok(s, i + 3)
+    ELSE IF c = 237 /\ c1 >= 128 /\ c1 <= 159 /\ Tail1(c2) THEN Utf8Ok(s, i + 3)
+    ELSE IF c = 240 /\ c1 >= 144 /\ c1 <= 191 /\ Tail1(c2) /\ Tail1(c3) THEN Utf8Ok(s, i + 4)
+    ELSE IF c >= 241 /\ c <= 243 /\ Tail1(c1) /\ Tail1(c2) /\ Tail1(c3) THEN Utf8Ok(s, i + 4)
+    ELSE IF c = 244 /\ c1 >= 128 /\ c1 <= 143 /\ Tail1(c2) /\ Tail1(c3) THEN Utf8Ok(s, i + 4)
+    ELSE FALSE
+(* "cstring: zero or more modified UTF-8 encoded characters followed by     *)
+(* '\x00'".  The specification does not define "modified"; the usual        *)
+(* meaning (Java) additionally admits C0 80 for U+0000 and three-byte       *)
+(* encodings of the surrogates ED A0..BF xx.  LooseUtf8Ok is the union of   *)
+(* both readings: a cstring outside it is ill-formed under every reading.   *)
+RECURSIVE LooseUtf8Ok(_, _)
+LooseUtf8Ok(s, i) ==
+  IF i > Len(s) THEN TRUE
+  ELSE LET c == At(s, i) c1 == At(s, i + 1) c2 == At(s, i + 2) c3 == At(s, i + 3) IN
+    IF c <= 127 THEN LooseUtf8Ok(s, i + 1)
+    ELSE IF c = 192 /\ c1 = 128 THEN LooseUtf8Ok(s, i + 2)
+    ELSE IF c >= 194 /\ c <= 223 /\ Tail1(c1) THEN LooseUtf8Ok(s, i + 2)
+    ELSE IF c = 224 /\ c1 >= 160 /\ c1 <= 191 /\ Tail1(c2) THEN LooseUtf8Ok(s, i + 3)
+    ELSE IF c >= 225 /\ c <= 239 /\ Tail1(c1) /\ Tail1(c2) THEN LooseUtf8Ok(s, i + 3)
+    ELSE IF c = 240 /\ c1 >= 144 /\ c1 <= 191 /\ Tail1(c2) /\ Tail1(c3) THEN LooseUtf8Ok(s, i + 4)
+    ELSE IF c >= 241 /\ c <= 243 /\ Tail1(c1) /\ Tail1(c2) /\ Tail1(c3) THEN LooseUtf8Ok(s, i + 4)
+    ELSE IF c = 244 /\ c1 >= 128 /\ c1 <= 143 /\ Tail1(c2) /\ Tail1(c3) THEN LooseUtf8Ok(s, i + 4)
+    ELSE FALSE
+
+-----------------------------------------------------------------------------
+(* cstring ::= (byte* ) "\x00", the bytes MUST NOT contain 0x00: it ends at *)
+(* the first 0x00 at or after i, which must lie within the enclosing        *)
+(* document (positions <= lim).  <<"ok", bytes, next>> | Err                *)
+RECURSIVE ScanZero(_, _, _)
+ScanZero(b, k, lim) == IF k > lim THEN 0 ELSE IF b[k] = 0 THEN k ELSE ScanZero(b, k + 1, lim)
+CStr(b, i, lim) == LET z == ScanZero(b, i, lim) IN IF z = 0 THEN Err ELSE <<"ok", SubSeq(b, i, z - 1), z + 1>>
+
+(* string ::= int32 (byte* ) "\x00".  <<"ok", bytes, next, terminatorIsZero>> | Err *)
+StrRaw(b, i, lim) ==
+  IF i + 3 > lim THEN Err
+  ELSE LET n == LenField(b, i) IN
+    IF n < 1 THEN Err                                  \* the count includes the trailing 0x00, so it is at least 1
+    ELSE IF i + 3 + n > lim THEN Err                   \* last byte of the string is at i + 3 + n
+    ELSE LET s == SubSeq(b, i + 4, i + 2 + n) IN
+      IF ~Utf8Ok(s, 1) THEN Err                        \* "(byte* ) is zero or more UTF-8 encoded characters"
+      ELSE IF b[i + 3 + n] # 0 THEN Tol(KnownDefect1, <<"ok", s, i + 4 + n, FALSE>>)   \* the trailing "\x00"
+      ELSE <<"ok", s, i + 4 + n, TRUE>>
+StrVal(kind, r) == IF r[1] # "ok" THEN r
+                   ELSE <<"ok", IF r[4] THEN <<kind, r[2]>> ELSE <<"bad", KnownDefect1, <<kind, r[2]>> >>, r[3]>>
+
+\* decimal key of array index k ("integer values for the keys, starting with 0 and continuing sequentially")
+RECURSIVE DecStr(_)
+DecStr(k) == IF k < 10 THEN <<48 + k>> ELSE Append(DecStr(k \div 10), 48 + (k % 10))
+
+(* binary ::= int32 subtype (byte* ); subtype table of the specification:   *)
+(* 0 generic, 1 function, 2 binary (old), 3 UUID (old), 4 UUID, 5 MD5,      *)
+(* 6 encrypted, 7 compressed column, 8 sensitive, 9 vector, 0x80-0xFF user  *)
+(* defined.  "Binary (Old): the structure of the binary data (the byte*     *)
+(* array in the binary non-terminal) must be an int32 followed by a         *)
+(* (byte* ).  The int32 is the number of bytes in the repetition."          *)
+BinVal(sub, data) ==
+  LET n == Len(data)  v == <<"bstr", data>> IN
+  IF sub = 2 /\ ~(n >= 4 /\ LenField(data, 1) = n - 4) THEN <<"loose", "binary-old-structure", v>>
+  ELSE IF sub \in {3, 4, 5} /\ n # 16 THEN <<"loose", "binary-subtype-length", v>>     \* UUID and MD5 are 16 bytes
+  ELSE IF sub >= 10 /\ sub <= 127 THEN <<"loose", "binary-subtype-unassigned", v>>     \* not in the subtype table
+  ELSE v
+
+\* regular expression options: "Options are identified by characters, which must be stored in alphabetical order.
+\* Valid option characters are i, l, m, s, u, x."
+OptsOk(o) == /\ \A k \in 1..Len(o) : o[k] \in {105, 108, 109, 115, 117, 120}
+             /\ \A k \in 1..(Len(o) - 1) : o[k] < o[k + 1]
+
+RECURSIVE Seconds(_, _, _)
+Seconds(ps, k, acc) == IF k > Len(ps) THEN acc ELSE Seconds(ps, k + 1, Append(acc, ps[k][2]))     \* the values of <<key, value>> pairs
+
+RECURSIVE Doc(_, _, _, _), Elems(_, _, _, _, _, _), Val(_, _, _, _)
+
+(* document ::= int32 e_list "\x00", starting at i and lying within i..lim. *)
+(* "int32 is the total number of bytes comprising the document": the        *)
+(* terminator is the byte at i + L - 1 and the e_list fills exactly the     *)
+(* bytes between.  isArr: the document is the payload of an "\x04" element. *)
+(* <<"ok", value, next>> | Err | <<"abort", class>>                         *)
+Doc(b, i, lim, isArr) ==
+  IF i + 3 > lim THEN Err
+  ELSE LET L == LenField(b, i) IN
+    IF L < 5 THEN Err                                  \* int32 + "\x00" is the smallest document
+    ELSE LET end == i + L - 1 IN
+      IF end > lim THEN Err                            \* longer than the input / than the enclosing document
+      ELSE IF b[end] # 0 THEN Err                      \* the trailing "\x00"
+      ELSE LET r == Elems(b, i + 4, end - 1, isArr, <<>>, TRUE) IN
+        IF r[1] # "ok" THEN r
+        ELSE IF ~isArr THEN <<"ok", <<"map", r[2]>>, end + 1>>
+        ELSE LET a == <<"arr", Seconds(r[2], 1, <<>>)>> IN
+             \* "Array - The document for an array is a normal BSON document with integer values for the keys,
+             \* starting with 0 and continuing sequentially": other keys are not an array; decoders commonly ignore them
+             <<"ok", IF \E k \in 1..Len(r[2]) : r[2][k][1][1] = "bad" THEN <<"bad", KnownDefect5, a>>
+                     ELSE IF r[4] THEN a ELSE <<"loose", "array-keys", a>>, end + 1>>
+
+(* e_list ::= element e_list | "" over the positions i..lim (lim = last     *)
+(* byte before the document's terminator).  acc: <<key, value>> pairs.      *)
+(* <<"ok", pairs, next, keysSequential>>                                    *)
+Elems(b, i, lim, isArr, acc, seqOk) ==
+  IF i > lim THEN <<"ok", acc, i, seqOk>>
+  ELSE LET t == b[i] IN
+    IF t = 0 THEN Err                                  \* no element starts with 0x00: the e_list would end before the declared size
+    ELSE LET nm == CStr(b, i + 1, lim) IN              \* element ::= type e_name ...;  e_name ::= cstring
+      IF nm[1] # "ok" THEN Err
+      ELSE LET strict == Utf8Ok(nm[2], 1)  loose == LooseUtf8Ok(nm[2], 1) IN
+        IF ~loose /\ ~(isArr /\ KnownDefect5 \in Tolerated) THEN Err          \* cstring: not (modified) UTF-8
+        ELSE LET key == IF strict THEN <<"tstr", nm[2]>>
+                        ELSE IF loose THEN <<"loose", "cstring-modified-utf8", <<"tstr", nm[2]>> >>
+                        ELSE <<"bad", KnownDefect5, <<"tstr", nm[2]>> >>
+                 v == Val(b, t, nm[3], lim) IN
+          IF v[1] # "ok" THEN v
+          ELSE Elems(b, v[3], lim, isArr, Append(acc, <<key, v[2]>>), seqOk /\ (~isArr \/ nm[2] = DecStr(Len(acc))))
+
+(* The value part of an element of type t starting at i (after the e_name). *)
+Val(b, t, i, lim) ==
+  LET Fits(n) == i + n - 1 <= lim IN
+  CASE t = 1 -> IF Fits(8) THEN <<"ok", <<"f64", RevSub(b, i, 8)>>, i + 8>> ELSE Err            \* "\x01" e_name double (8 bytes IEEE 754-2008)
+    [] t = 2 -> StrVal("tstr", StrRaw(b, i, lim))                                                \* "\x02" e_name string
+    [] t = 3 -> Doc(b, i, lim, FALSE)                                                            \* "\x03" e_name document
+    [] t = 4 -> Doc(b, i, lim, TRUE)                                                             \* "\x04" e_name document (array)
+    [] t = 5 -> IF ~Fits(5) THEN Err                                                             \* "\x05" e_name binary
+                ELSE LET n == LenField(b, i) IN
+                  IF n < 0 THEN Err
+                  ELSE IF i + 4 + n > lim THEN Err
+                  ELSE <<"ok", BinVal(b[i + 4], SubSeq(b, i + 5, i + 4 + n)), i + 5 + n>>
+    [] t = 6 -> <<"ok", <<"undef">>, i>>                                                         \* "\x06" e_name  Undefined (deprecated)
+    [] t = 7 -> IF Fits(12) THEN <<"ok", <<"oid", SubSeq(b, i, i + 11)>>, i + 12>> ELSE Err      \* "\x07" e_name (byte*12)
+    [] t = 8 -> IF ~Fits(1) THEN Err                                                             \* "\x08" e_name "\x00" | "\x01"
+                ELSE IF b[i] = 0 THEN <<"ok", <<"bool", FALSE>>, i + 1>>
+                ELSE IF b[i] = 1 THEN <<"ok", <<"bool", TRUE>>, i + 1>>
+                ELSE Tol(KnownDefect2, <<"ok", <<"bad", KnownDefect2, <<"bool", TRUE>> >>, i + 1>>)
+    [] t = 9 -> IF Fits(8) THEN <<"ok", <<"datetime", IntVal(RevSub(b, i, 8))>>, i + 8>> ELSE Err   \* "\x09" e_name int64  UTC datetime
+    [] t = 10 -> <<"ok", <<"null">>, i>>                                                         \* "\x0A" e_name
+    [] t = 11 -> LET p == CStr(b, i, lim) IN                                                     \* "\x0B" e_name cstring cstring
+                 IF p[1] # "ok" THEN Err
+                 ELSE LET o == CStr(b, p[3], lim) IN
+                   IF o[1] # "ok" THEN Err
+                   ELSE LET v == <<"regex", p[2], o[2]>> IN
+                     IF ~LooseUtf8Ok(p[2], 1) \/ ~LooseUtf8Ok(o[2], 1) THEN Tol(KnownDefect4, <<"ok", <<"bad", KnownDefect4, v>>, o[3]>>)
+                     ELSE IF ~Utf8Ok(p[2], 1) \/ ~Utf8Ok(o[2], 1) THEN <<"ok", <<"loose", "cstring-modified-utf8", v>>, o[3]>>
+                     ELSE IF ~OptsOk(o[2]) THEN <<"ok", <<"loose", "regex-options", v>>, o[3]>>
+                     ELSE <<"ok", v, o[3]>>
+    [] t = 12 -> LET s == StrRaw(b, i, lim) IN                                                   \* "\x0C" e_name string (byte*12)  DBPointer (deprecated)
+                 IF s[1] # "ok" THEN s
+                 ELSE IF s[3] + 11 > lim THEN Err
+                 ELSE LET v == <<"dbptr", s[2], SubSeq(b, s[3], s[3] + 11)>> IN
+                      <<"ok", <<"loose", "deprecated-type", IF s[4] THEN v ELSE <<"bad", KnownDefect1, v>> >>, s[3] + 12>>
+    [] t = 13 -> StrVal("code", StrRaw(b, i, lim))                                               \* "\x0D" e_name string  JavaScript code
+    [] t = 14 -> StrVal("symbol", StrRaw(b, i, lim))                                             \* "\x0E" e_name string  Symbol (deprecated)
+    [] t = 15 -> IF ~Fits(4) THEN Err                                                            \* "\x0F" e_name code_w_s (deprecated)
+                 ELSE LET T == LenField(b, i) IN                                                 \* code_w_s ::= int32 string document
+                   IF T < 14 THEN Err                                                            \* 4 + (4 + 1) + 5
+                   ELSE IF i + T - 1 > lim THEN Err
+                   ELSE LET s == StrRaw(b, i + 4, i + T - 1) IN
+                     IF s[1] # "ok" THEN s
+                     ELSE LET d == Doc(b, s[3], i + T - 1, FALSE) IN
+                       IF d[1] # "ok" THEN d
+                       ELSE IF d[3] # i + T THEN Err                                             \* "int32 is the length in bytes of the entire code_w_s value"
+                       ELSE LET v == <<"codews", s[2], d[2]>> IN
+                            <<"ok", <<"loose", "deprecated-type", IF s[4] THEN v ELSE <<"bad", KnownDefect1, v>> >>, d[3]>>
+    [] t = 16 -> IF Fits(4) THEN <<"ok", IntVal(RevSub(b, i, 4)), i + 4>> ELSE Err               \* "\x10" e_name int32
+    [] t = 17 -> IF Fits(8) THEN <<"ok", <<"ts", RevSub(b, i, 8)>>, i + 8>> ELSE Err             \* "\x11" e_name uint64  Timestamp
+    [] t = 18 -> IF Fits(8) THEN <<"ok", IntVal(RevSub(b, i, 8)), i + 8>> ELSE Err               \* "\x12" e_name int64
+    [] t = 19 -> IF Fits(16) THEN <<"ok", <<"dec128", SubSeq(b, i, i + 15)>>, i + 16>> ELSE Err  \* "\x13" e_name decimal128 (16 bytes)
+    [] t = 255 -> IF KnownDefect3 \in Tolerated THEN <<"abort", KnownDefect3>> ELSE <<"ok", <<"minkey">>, i>>   \* "\xFF" e_name  Min key
+    [] t = 127 -> IF KnownDefect3 \in Tolerated THEN <<"abort", KnownDefect3>> ELSE <<"ok", <<"maxkey">>, i>>   \* "\x7F" e_name  Max key
+    [] OTHER -> Err                                                                              \* no production for any other type byte
+
+(* The top-level item is a document.  An "abort" (the parse reached, in     *)
+(* input order, a construct after which the pinned jsoncons is known to     *)
+(* lose synchronisation - KnownDefect3) leaves the whole input              *)
+(* unconstrained; the structural checks that precede it (declared sizes,    *)
+(* trailing "\x00" of every enclosing document) are necessary for any       *)
+(* sequential decoder to accept, so "err" from them stays binding.          *)
+Decode(b) == LET r == Doc(b, 1, Len(b), FALSE) IN
+             IF r[1] = "abort" THEN <<"ok", <<"bad", r[2], <<"null">> >>, 1>> ELSE r
+
+-----------------------------------------------------------------------------
+(* Plain(v): the value uses only kinds binval.hpp's matches() understands   *)
+(* and jsoncons documents that image (doc/ref/bson/bson.md: null, bool,     *)
+(* int32/int64 -> int64, double, string, binary -> byte_string, array,      *)
+(* embedded document -> object, undefined -> null).  Format-specific kinds  *)
+(* (ObjectId, datetime, timestamp, regex, decimal128, code, symbol, ...)    *)
+(* and both wrappers are compared on the verdict only.                      *)
+RECURSIVE Plain(_)
+Plain(v) ==
+  CASE v[1] = "arr" -> \A k \in 1..Len(v[2]) : Plain(v[2][k])
+    [] v[1] = "map" -> /\ \A k \in 1..Len(v[2]) : v[2][k][1][1] = "tstr" /\ Plain(v[2][k][2])
+                       /\ \A k, m \in 1..Len(v[2]) : k # m => v[2][k][1] # v[2][m][1]     \* duplicate names: the specification is silent
+    [] v[1] \in {"uint", "nint", "f64", "tstr", "bstr", "bool", "null", "undef"} -> TRUE
+    [] OTHER -> FALSE
+
+(* MayRefuse(v): the verdict is not compared.                               *)
+(*  "loose" classes - well-formed, or the specification is ambiguous:       *)
+(*    deprecated-type         DBPointer "\x0C" and code_w_s "\x0F" (deprecated; jsoncons documents no mapping for them) *)
+(*    binary-old-structure    subtype 2 whose inner int32 does not match (payload may be treated as opaque)             *)
+(*    binary-subtype-length   UUID / MD5 payload that is not 16 bytes                                                   *)
+(*    binary-subtype-unassigned  subtype 0x0A..0x7F (not in the table, not user defined)                                *)
+(*    array-keys              array document whose keys are not "0", "1", ... (decoders commonly ignore the keys)       *)
+(*    cstring-modified-utf8   cstring valid only as "modified" UTF-8 (C0 80, encoded surrogates): the term is undefined *)
+(*    regex-options           option characters outside "ilmsux" or not in alphabetical order                           *)
+(*  "bad" classes - the known defects in Tolerated.                         *)
+RECURSIVE MayRefuse(_)
+MayRefuse(v) ==
+  CASE v[1] \in {"loose", "bad"} -> TRUE
+    [] v[1] = "arr" -> \E k \in 1..Len(v[2]) : MayRefuse(v[2][k])
+    [] v[1] = "map" -> \E k \in 1..Len(v[2]) : MayRefuse(v[2][k][1]) \/ MayRefuse(v[2][k][2])
+    [] OTHER -> FALSE
 =============================================================================
